@@ -196,20 +196,20 @@ Section Exact.
       apply ncmp_gt_lt. exact Hox.
   Qed.
 
-  (* Full statement (FALSE, see exact_nameerror_nsec_refuted):
-       verify_nameerror_nsec q set = E_ok -> ~ exists_in z q.
+  (* Full statement (FALSE, see old_exact_nameerror_nsec_refuted):
+       verify_nameerror_nsec_old q set = E_ok -> ~ exists_in z q.
      Proved: it holds when q is not an empty non-terminal, not below a cut, the
      wildcard at its closest encloser is not an empty non-terminal, and the
      zone has no wildcard directly below a root apex. *)
-  Theorem exact_nameerror_nsec_partial q :
+  Theorem old_exact_nameerror_nsec_partial q :
     is_prefix (z_apex z) q ->
-    verify_nameerror_nsec q set = E_ok ->
+    verify_nameerror_nsec_old q set = E_ok ->
     ~ is_ent z q -> ~ below_cut z q ->
     (forall ce, closest_encloser z q ce -> ~ is_ent z (ce ++ [star])) ->
     (z_apex z = [] -> ~ exists_direct z [star]) ->
     ~ exists_in z q.
   Proof.
-    intros Hq Hv Hnent Hncut Hwent Hroot. unfold verify_nameerror_nsec in Hv.
+    intros Hq Hv Hnent Hncut Hwent Hroot. unfold verify_nameerror_nsec_old in Hv.
     destruct (find (rec_covers q) set) as [c|] eqn:Ef; [|discriminate].
     apply find_some in Ef. destruct Ef as [Hc Hcov].
     pose proof (covers_inside c q Hc Hq Hcov) as Hin.
@@ -245,18 +245,18 @@ Section Exact.
     rewrite (closest_encloser_unique z Hwf q ce' ce Hc' Hclo) in He'. exact (Hwnd He').
   Qed.
 
-  (* Full statement (FALSE, see exact_nodata_nsec_refuted):
-       verify_nodata_nsec q qtype set = E_ok -> nodata_true z q qtype.
+  (* Full statement (FALSE, see old_exact_nodata_nsec_refuted):
+       verify_nodata_nsec_old q qtype set = E_ok -> nodata_true z q qtype.
      Proved: it holds unless the answering node is a delegation point and the
      type is not DS (RFC 6840 §4.1), and except below a root apex (where the
      code's "*.." spelling can never match). *)
-  Theorem exact_nodata_nsec_partial q qtype :
+  Theorem old_exact_nodata_nsec_partial q qtype :
     is_prefix (z_apex z) q ->
-    verify_nodata_nsec q qtype set = E_ok ->
+    verify_nodata_nsec_old q qtype set = E_ok ->
     (qtype <> T_DS -> forall n tys, In (n, tys) (z_nodes z) -> ~ (In T_NS tys /\ ~ In T_SOA tys) \/ (n <> q /\ forall ce, n <> ce ++ [star])) ->
     nodata_true z q qtype.
   Proof.
-    intros Hq Hv Hnd. unfold verify_nodata_nsec in Hv.
+    intros Hq Hv Hnd. unfold verify_nodata_nsec_old in Hv.
     assert (Hlack : forall n bm, In (n, bm) (z_nodes z) -> (n = q \/ exists ce, n = ce ++ [star]) ->
                                  nodata_bitmap_check qtype bm = E_ok -> node_lacks bm qtype).
     { intros n bm Hin Hn Hc. destruct (nodata_bitmap_check_ok _ _ Hc) as [H1 [H2 H3]].
@@ -303,11 +303,11 @@ Section Exact.
           exists (c_types w). split; [exact Hwin|]. apply (Hlack (ce ++ [star])); eauto.
   Qed.
 
-  (* ---- with props/C02/fix.patch applied both verifiers are sound, full statement *)
-  Theorem exact_nameerror_nsec_fixed_sound q :
-    is_prefix (z_apex z) q -> verify_nameerror_nsec_fixed q set = E_ok -> ~ exists_in z q.
+  (* ---- the current code (since fix 130ba3b): both verifiers are sound, full statement *)
+  Theorem exact_nameerror_nsec_sound q :
+    is_prefix (z_apex z) q -> verify_nameerror_nsec q set = E_ok -> ~ exists_in z q.
   Proof.
-    intros Hq Hv. unfold verify_nameerror_nsec_fixed in Hv.
+    intros Hq Hv. unfold verify_nameerror_nsec in Hv.
     destruct (find (rec_covers q) set) as [c|] eqn:Ef; [|discriminate].
     apply find_some in Ef. destruct Ef as [Hc Hcov].
     pose proof (covers_inside c q Hc Hq Hcov) as Hin.
@@ -336,10 +336,10 @@ Section Exact.
     rewrite (closest_encloser_unique z Hwf q ce' ce Hc' Hclo) in He'. exact (Hwnd He').
   Qed.
 
-  Theorem exact_nodata_nsec_fixed_sound q qtype :
-    is_prefix (z_apex z) q -> verify_nodata_nsec_fixed q qtype set = E_ok -> nodata_true z q qtype.
+  Theorem exact_nodata_nsec_sound q qtype :
+    is_prefix (z_apex z) q -> verify_nodata_nsec q qtype set = E_ok -> nodata_true z q qtype.
   Proof.
-    intros Hq Hv. unfold verify_nodata_nsec_fixed in Hv.
+    intros Hq Hv. unfold verify_nodata_nsec in Hv.
     destruct (find (fun r => rname_eqb (c_owner r) q) set) as [r|] eqn:Ef.
     - apply find_some in Ef. destruct Ef as [Hr E]. apply rname_eqb_spec in E.
       assert (Hin : In (q, c_types r) (z_nodes z)) by (rewrite <- E; apply (Hgen r Hr)).
@@ -378,7 +378,9 @@ Section Exact.
   Qed.
 End Exact.
 
-(* ------------------------------------------------------------ refutations (F1) *)
+(* ------------------------------------------------------------ regression witnesses: the code BEFORE fix
+   130ba3b (verify_*_old) violated the statement (findings F1 and variants); the current code
+   refuses each of these inputs (fixed_refuses_old_witnesses) *)
 (* example. = [[101]] keeps the witnesses small: apex "e.", labels a=97 b=98 s=115 x=120 z=122 *)
 Definition w_types_apex : list N := [2; 6; 46; 47; 48].
 Definition w_plain : list N := [1; 46; 47].
@@ -400,18 +402,18 @@ Definition w_set_went : list cnsec :=
 
 Lemma refute_helper z set q :
   zone_wf_b z = true -> forallb (genuine_b z) set = true -> prefix_b (z_apex z) q = true ->
-  verify_nameerror_nsec q set = E_ok -> exists_in_b z q = true ->
+  verify_nameerror_nsec_old q set = E_ok -> exists_in_b z q = true ->
   zone_wf z /\ (forall r, In r set -> genuine z r) /\ is_prefix (z_apex z) q /\
-  verify_nameerror_nsec q set = E_ok /\ exists_in z q.
+  verify_nameerror_nsec_old q set = E_ok /\ exists_in z q.
 Proof.
   intros H1 H2 H3 H4 H5. split; [apply zone_wf_b_sound, H1|].
   split; [intros r Hr; apply genuine_b_sound; rewrite forallb_forall in H2; apply H2, Hr|].
   split; [apply prefix_b_spec, H3|]. split; [exact H4 | apply exists_in_b_spec, H5].
 Qed.
 
-Theorem exact_nameerror_nsec_refuted :
+Theorem old_exact_nameerror_nsec_refuted :
   exists z set q, zone_wf z /\ (forall r, In r set -> genuine z r) /\ is_prefix (z_apex z) q /\
-                  verify_nameerror_nsec q set = E_ok /\ exists_in z q /\ is_ent z q.
+                  verify_nameerror_nsec_old q set = E_ok /\ exists_in z q /\ is_ent z q.
 Proof.
   exists w_zone_ent, w_set_ent, [[101]; [98]].
   destruct (refute_helper w_zone_ent w_set_ent [[101]; [98]]) as [H1 [H2 [H3 [H4 H5]]]]; try (vm_compute; reflexivity).
@@ -420,9 +422,9 @@ Proof.
   - exists [[101]; [98]; [97]]. split; [exists w_plain; cbn; auto|]. exists [[97]]. split; [discriminate | reflexivity].
 Qed.
 
-Theorem exact_nameerror_nsec_refuted_below_cut :
+Theorem old_exact_nameerror_nsec_refuted_below_cut :
   exists z set q, zone_wf z /\ (forall r, In r set -> genuine z r) /\ is_prefix (z_apex z) q /\
-                  verify_nameerror_nsec q set = E_ok /\ exists_in z q /\ below_cut z q.
+                  verify_nameerror_nsec_old q set = E_ok /\ exists_in z q /\ below_cut z q.
 Proof.
   exists w_zone_cut, w_set_cut, [[101]; [115]; [120]].
   destruct (refute_helper w_zone_cut w_set_cut [[101]; [115]; [120]]) as [H1 [H2 [H3 [H4 H5]]]]; try (vm_compute; reflexivity).
@@ -430,9 +432,9 @@ Proof.
   apply below_cut_b_spec. vm_compute. reflexivity.
 Qed.
 
-Theorem exact_nameerror_nsec_refuted_wildcard_ent :
+Theorem old_exact_nameerror_nsec_refuted_wildcard_ent :
   exists z set q, zone_wf z /\ (forall r, In r set -> genuine z r) /\ is_prefix (z_apex z) q /\
-                  verify_nameerror_nsec q set = E_ok /\ exists_in z q /\ wildcard_match z q.
+                  verify_nameerror_nsec_old q set = E_ok /\ exists_in z q /\ wildcard_match z q.
 Proof.
   exists w_zone_went, w_set_went, [[101]; [120]].
   destruct (refute_helper w_zone_went w_set_went [[101]; [120]]) as [H1 [H2 [H3 [H4 H5]]]]; try (vm_compute; reflexivity).
@@ -441,9 +443,9 @@ Proof.
 Qed.
 
 (* NODATA for type A at the delegation point s.e., from the ancestor-delegation NSEC *)
-Theorem exact_nodata_nsec_refuted :
+Theorem old_exact_nodata_nsec_refuted :
   exists z set q qtype, zone_wf z /\ (forall r, In r set -> genuine z r) /\ is_prefix (z_apex z) q /\
-                        verify_nodata_nsec q qtype set = E_ok /\ ~ nodata_true z q qtype.
+                        verify_nodata_nsec_old q qtype set = E_ok /\ ~ nodata_true z q qtype.
 Proof.
   exists w_zone_cut, w_set_cut, [[101]; [115]], 1.
   split; [apply zone_wf_b_sound; vm_compute; reflexivity|].
@@ -462,4 +464,14 @@ Example aggr_on_witnesses :
   aggr_nsec [[101]; [120]] 1 1 [[101]] w_set_went = A_deny RC_NOERROR [1%nat; 0%nat] /\
   aggr_nsec [[101]; [115]] 1 1 [[101]] w_set_cut = A_err E_bad_deleg /\
   aggr_nsec [[101]; [116]] 1 1 [[101]] w_set_cut = A_deny RC_NXDOMAIN [1%nat; 0%nat].
+Proof. vm_compute. repeat split; reflexivity. Qed.
+
+(* the repaired verifiers refuse every one of the old witnesses *)
+Example fixed_refuses_old_witnesses :
+  verify_nameerror_nsec [[101]; [98]] w_set_ent = E_missing /\
+  verify_nameerror_nsec [[101]; [115]; [120]] w_set_cut = E_bad_deleg /\
+  verify_nameerror_nsec [[101]; [120]] w_set_went = E_missing /\
+  verify_nodata_nsec [[101]; [115]] 1 w_set_cut = E_bad_deleg /\
+  verify_nodata_nsec [[101]; [115]] T_DS w_set_cut = E_ok /\
+  verify_nameerror_nsec [[101]; [116]] w_set_cut = E_ok.
 Proof. vm_compute. repeat split; reflexivity. Qed.
